@@ -112,6 +112,7 @@ def analyse(ctx, replace=None, only=None):
 
     handoff(R, sh, P)
     per_thread_state(R, P, th)
+    wrapper_pointer_rules(R, P, th)
     join_list(R, th["aws_thread_join_and_free_wrapper_list"])
     thread_fn(R, th["thread_fn"])
     atexit(R, th["aws_thread_current_at_exit"])
@@ -167,6 +168,83 @@ def per_thread_state(R, P, th):
         g = P.globals.get(n) or {}
         R.check(bool(g.get("tls")), "THREAD-FN", "per-thread-state:%s" % n, "source/posix/thread.c", "%s, written by every thread for itself, is thread-local" % n,
                 "%s is written by every library thread at start-up but is not thread-local: all threads share one `current wrapper`, so at-exit callbacks are registered on whichever thread started last (run on the wrong thread, or written into a wrapper copy on a stack that is gone)" % n)
+
+
+def wrapper_pointer_rules(R, P, th):
+    """THREAD-FN/state, continued.  (1) Only the function that installed a temporary uninstalls it: outside thread_fn, a
+    store of NULL to the thread-local `current wrapper` pointer is reached only on paths on which the same call stored the
+    address of one of its own locals there (typestate, with `pointer == &local` / a flag computed from `pointer == NULL`
+    correlated) - clearing it unconditionally cuts a library thread off from its own wrapper: later at-exit registrations
+    fail.  (2) aws_thread_init leaves the thread object NOT_CREATED on every path (a re-used object does not keep MANAGED
+    from an earlier launch).  (3) no allocation in the file is smaller than the object it is used as."""
+    tls = sorted({e.node["n"] for e in th["thread_fn"].all_events() if e.kind == "access" and e.node["k"] == "var" and e.node.get("sc") == "global" and e.mode in ("w", "rw") and (P.globals.get(e.node["n"]) or {}).get("tls")})
+    n_sites = 0
+    for name, f in sorted(th.items()):
+        if name == "thread_fn" or getattr(f, "transparent", False):
+            continue
+        stores = {}
+        for b in f.blocks.values():
+            for el in b.elems:
+                for x in f.walk(el):
+                    if x["k"] == "bin" and x["op"] == "=":
+                        l_, r_ = f.d(x["a"][0]), RU.uncast(f, x["a"][1])
+                        while r_ is not None and r_["k"] == "cast":
+                            r_ = RU.uncast(f, r_["a"][0])
+                        if l_ is not None and l_["k"] == "var" and l_["n"] in tls and r_ is not None:
+                            if r_["k"] == "un" and r_["op"] == "addr" and (f.d(r_["a"][0]) or {}).get("sc") == "local":
+                                stores[id(l_)] = ("install", f.d(r_["a"][0])["n"])
+                            elif f.is_const(r_) == 0:
+                                stores[id(l_)] = ("clear", None)
+                            else:
+                                stores[id(l_)] = ("other", None)
+        if not any(k == "clear" for k, _ in stores.values()):
+            continue
+        n_sites += 1
+
+        def tr(e, s_, stores=stores):
+            if e.kind == "access" and e.mode == "w" and id(e.node) in stores:
+                kind, loc = stores[id(e.node)]
+                if kind == "install":
+                    return "installed"
+                if kind == "clear":
+                    return "none" if s_ == "installed" else "BAD"
+                return "foreign"
+            return s_
+
+        def edge(cond, pol, s_, fn, b):
+            g = RU.cmp_norm(fn, cond, pol)
+            if not g or g[2] is None or g[1] not in ("==", "!="):
+                return s_
+            sides = [RU.uncast(fn, g[0]), RU.uncast(fn, g[2])]
+            for a_, b_ in (sides, sides[::-1]):
+                x_ = b_
+                while x_ is not None and x_["k"] == "cast":
+                    x_ = RU.uncast(fn, x_["a"][0])
+                if a_ is not None and a_["k"] == "var" and a_["n"] in tls and x_ is not None and x_["k"] == "un" and x_["op"] == "addr" and (fn.d(x_["a"][0]) or {}).get("sc") == "local":
+                    mine = g[1] == "=="
+                    if mine and s_ != "installed":
+                        return []  # nobody else can have stored the address of this call's local
+                    if not mine and s_ == "installed":
+                        return []
+            return s_
+        ts = Typestate(f, "none", tr, edge, correlate=True)
+        allst = set().union(*ts.before.values()) | ts.exit_states if ts.before else set()
+        R.check("BAD" not in allst, "THREAD-FN", "per-thread-state:%s-clears-only-its-own-temporary" % name, "%s()" % name, "the current-wrapper pointer is reset only where this call installed its own temporary",
+                "%s resets the thread-local current-wrapper pointer on a path on which it did not install it: on a library thread the thread's own wrapper is uninstalled, later aws_thread_current_at_exit calls fail and their callbacks never run" % name)
+    R.require(n_sites >= 1 or not tls, "thread.c: no function that installs a temporary wrapper found (aws_thread_call_once expected)")
+    f = th.get("aws_thread_init")
+    nc = P.enums.get("AWS_THREAD_NOT_CREATED")
+    if R.require(f is not None and nc is not None, "aws_thread_init / AWS_THREAD_NOT_CREATED not found"):
+        st_ = [e for e in f.field_accesses(rec="aws_thread", field="detach_state", modes=("w",))]
+        good = [e for e in st_ if (lambda a_: a_ is not None and f.is_const(RU.uncast(f, a_["a"][1])) == nc)(_assignment_of_any(f, e))]
+        always = bool(good) and Typestate(f, 0, lambda e, s_: 1 if any(e is g_ for g_ in good) else s_).exit_states == {1}
+        R.check(always and len(good) == len(st_), "LAUNCH", "init-resets-detach-state", "%s()" % f.name, "aws_thread_init stores detach_state = AWS_THREAD_NOT_CREATED on every path",
+                "aws_thread_init does not reset detach_state: a thread object re-used after a managed launch keeps AWS_THREAD_MANAGED, the new (manual) thread takes the managed exit path - it is joined twice and the unjoined count wraps")
+    for name, f in sorted(th.items()):
+        for c, n, need in RU.alloc_too_small(f):
+            R.fail("ATEXIT-LIFO" if name == "aws_thread_current_at_exit" else "LAUNCH", "%s:allocation-holds-the-object" % name, where(f, c),
+                   "%s bytes are requested for an object of %s bytes: its fields beyond the request lie outside the block (they overlap the next allocation of an exact-size allocator)" % (n, need))
+    R.check(True, "LAUNCH", "allocations-hold-their-objects", "source/posix/thread.c", "no constant-size allocation is smaller than the object it is used as")
 
 
 def handoff(R, sh, P=None):
